@@ -96,6 +96,37 @@ pub fn family(kind: Kind, amp_sel: u32, bps: u32, n: usize) -> Vec<i32> {
         }
     }
 }
+/// Interleaved PCM whose channel c has trait (code >> 3c) & 7: 0 noise, 1 noise with 4 wasted bits, 2 non-zero constant,
+/// 3 silence, 4 exact ramp, 5 shared noise ± offset (constant non-zero difference between two such channels), 6 shared
+/// noise (dual mono), 7 noise with 1 wasted bit.
+pub fn hetero(code: u32, chs: usize, bps: u32, n: usize) -> Vec<i32> {
+    let mx = smax(bps) as i64;
+    let amp = (mx / 16).max(1);
+    let noise = |seed: u64, i: usize| -> i64 {
+        let mut z = (seed.wrapping_add(i as u64)).wrapping_mul(0x9E3779B97F4A7C15);
+        z ^= z >> 29;
+        z = z.wrapping_mul(0xBF58476D1CE4E5B9);
+        z ^= z >> 32;
+        (z % (2 * amp as u64 + 1)) as i64 - amp
+    };
+    (0..n * chs)
+        .map(|k| {
+            let (i, ch) = (k / chs, k % chs);
+            let own = noise(0x1000 * (ch as u64 + 1), i);
+            let shared = noise(0x77, i);
+            (match (code >> (3 * ch)) & 7 {
+                0 => own,
+                1 => (own << 4).clamp(-mx - 1, mx) & !15,
+                2 => amp,
+                3 => 0,
+                4 => (i as i64 * 3 - 50).clamp(-mx - 1, mx),
+                5 => shared + if ch == 0 { mx / 4 } else { -(mx / 4) },
+                6 => shared,
+                _ => own << 1,
+            }) as i32
+        })
+        .collect()
+}
 pub const KINDS: &[Kind] = &[Kind::Const, Kind::Ramp, Kind::Sine, Kind::AltExt, Kind::Square, Kind::Impulse, Kind::Spikes, Kind::Noise(0), Kind::Noise(1), Kind::Wasted(1), Kind::Wasted(5), Kind::NoisyLow, Kind::Periodic(32), Kind::Periodic(12)];
 
 pub const RATES: &[u32] = &[44100, 0, 1, 8000, 16000, 22050, 24000, 32000, 48000, 88200, 96000, 176400, 192000, 255000, 254999, 65535, 65536, 655350, 655351, 1048575];
@@ -277,6 +308,30 @@ pub fn enumerate(ctx: &Ctx, parts: &str, f: &mut dyn FnMut(&EncCase)) {
                 }
             }
         });
+    }
+    // (j) channel-heterogeneous inputs: every assignment of 8 per-channel traits to 2 channels (4 correlation modes) and of the
+    //     first 4 traits to 3 channels — frames whose subframes see different KINDS of data (wasted bits in one channel only,
+    //     constant next to noise, constant non-zero inter-channel difference, dual mono)
+    if has('j') {
+        for bps in [8u32, 16, 24] {
+            for bs in [16u16, 192] {
+                let n = bs as usize * 2 + 5;
+                for (chs, ncodes) in [(2usize, 64u32), (3, 512)] {
+                    for code in 0..ncodes {
+                        if chs == 3 && (0..3).any(|c| (code >> (3 * c)) & 7 > 3) {
+                            continue;
+                        }
+                        let modes: &[(bool, bool)] = if chs == 2 { &[(true, false), (false, false), (false, true), (true, true)] } else { &[(true, false)] };
+                        for &(mid_side, fast) in modes {
+                            if ctx.mine() {
+                                let pcm = hetero(code, chs, bps, n);
+                                f(&EncCase { set: "j", w: WriterKind::Sample, opt: Opt { block: bs, mid_side, fast, ..base }, sig: Sig { rate: 44100, bps, ch: chs as u8 }, pcm: &pcm });
+                            }
+                        }
+                    }
+                }
+            }
+        }
     }
     // (h) signal-family grid on real block sizes
     if has('h') {
